@@ -1310,6 +1310,9 @@ func (b *Bounds) fieldLenInv(k FieldKey) *ival {
 		return nil
 	}
 	st := b.p.stores[k]
+	if os.Getenv("OBFSVET_DEBUG") != "" {
+		fmt.Println("DEBUG fieldLenInv", k, len(st), b.p.reflectWritten(k.Type))
+	}
 	if len(st) == 0 {
 		return nil
 	}
@@ -1321,7 +1324,28 @@ func (b *Bounds) fieldLenInv(k FieldKey) *ival {
 		var iv *ival
 		ok1, _ := false, ""
 		// find constant length via proof of len == c for candidate c's
-		for _, c := range []int64{16, 32, 8, 20, 24, 64, 192, 5} {
+		exact := []int64{16, 32, 8, 20, 24, 64, 192, 5}
+		switch ms := unspill(s.Val).(type) {
+		case *ssa.MakeSlice:
+			if c, ok := intConst(ms.Len); ok {
+				exact = []int64{c}
+			}
+		case *ssa.Slice:
+			// make([]T, const) is compiled to new [const]T + slice
+			lo := int64(0)
+			okLo := ms.Low == nil
+			if ms.Low != nil {
+				lo, okLo = intConst(ms.Low)
+			}
+			if ms.High != nil {
+				if hi, ok := intConst(ms.High); ok && okLo {
+					exact = []int64{hi - lo}
+				}
+			} else if n, ok := constLen(ms.X.Type()); ok && okLo {
+				exact = []int64{n - lo}
+			}
+		}
+		for _, c := range exact {
 			c := c
 			ok1, _ = b.Prove(s.Fn, s.Instr, func(sc *scope, pr *proof) []Cons {
 				l, ok := sc.lenLin(s.Val, pr)
